@@ -22,6 +22,11 @@ pub enum Act {
     /// (long runs of all-zero pixels, aligned to the vector width) — stale scratch content under
     /// those runs must not leak
     Sprite { pt: PT, geo: usize, alg: Alg },
+    /// alpha-aware resize of an interior crop box (the middle third of the source in both axes, so
+    /// the box is an up-scale for most geometries and has source rows/columns beyond the filter's
+    /// reach on every side): whatever an earlier call left in the kept premultiplied copy around
+    /// the box must not leak
+    Interior { pt: PT, geo: usize, alg: Alg },
     /// invalid crop box
     BadCrop { pt: PT },
     /// source and destination of different pixel types
@@ -132,6 +137,14 @@ pub fn alphabet(tier: Tier, sub: bool) -> Vec<Act> {
                 v.push(Act::Resize { pt, geo: g, alg: Alg::Conv(F::Bilinear), alpha: true, frac: false });
                 v.push(Act::Sprite { pt, geo: g, alg: Alg::Conv(F::Bilinear) });
             }
+            for g in [1usize, 2, 3] {
+                v.push(Act::Interior { pt, geo: g, alg: Alg::Conv(F::Lanczos3) });
+            }
+            v.push(Act::Interior { pt, geo: 2, alg: Alg::Conv(F::CatmullRom) });
+        }
+    } else {
+        for (pi, &pt) in ALPHA_PT.iter().enumerate() {
+            v.push(Act::Interior { pt, geo: 1 + pi % 3, alg: Alg::Conv(F::Lanczos3) });
         }
     }
     v.push(Act::BadCrop { pt: PT::U8x4 });
@@ -182,6 +195,17 @@ fn exec(rz: &mut Resizer, act: Act, key: u64) -> (String, Vec<u8>) {
             let src = Raw::from_fn(pt, sw, sh, |x, y, c| if (x / 8 + y / 3) % 2 == 0 || y % 5 == 4 { 0.0 } else { noisy.get(x, y, c) });
             let mut o = Opts::new(alg);
             o.alpha = true;
+            let mut dst = Raw::filled(pt, dw, dh, 0x5A);
+            let r = resize_into(rz, &src, &mut dst, &o);
+            (format!("{:?}", r), dst.bytes().to_vec())
+        }
+        Act::Interior { pt, geo, alg } => {
+            let ((sw, sh), (dw, dh)) = GEOS[geo];
+            let src = source(pt, sw, sh, key);
+            let mut o = Opts::new(alg);
+            o.alpha = true;
+            o.cx = Some(Crop1 { start: (sw / 3) as f64, len: ((sw + 2) / 3) as f64 });
+            o.cy = Some(Crop1 { start: (sh / 3) as f64, len: ((sh + 2) / 3) as f64 });
             let mut dst = Raw::filled(pt, dw, dh, 0x5A);
             let r = resize_into(rz, &src, &mut dst, &o);
             (format!("{:?}", r), dst.bytes().to_vec())
@@ -331,6 +355,7 @@ fn act_class(a: Act) -> String {
     match a {
         Act::Resize { pt, alg, alpha, .. } => format!("resize {:?} {} alpha={}", pt, crate::props::c01::alg_class(alg), alpha),
         Act::Sprite { pt, alg, .. } => format!("resize sprite {:?} {} alpha=true", pt, crate::props::c01::alg_class(alg)),
+        Act::Interior { pt, alg, .. } => format!("resize interior crop {:?} {} alpha=true", pt, crate::props::c01::alg_class(alg)),
         o => format!("{:?}", o),
     }
 }
@@ -452,7 +477,7 @@ pub fn prop(tier: Tier, _seed: u64) -> Prop {
         }
         out
     }));
-    p.rule = format!("explicit-state search over Resizer histories: full alphabet of {} actions (8 pixel types with pixel sizes 1,2,3,6,8,4,12,16 x 4 geometries incl. larger-then-smaller x {{Nearest, Convolution(Lanczos3), Interpolation(Bilinear), SuperSampling(Box,2)}}, alpha on, fractional crops, two erroring calls, reset_internal_buffers, clone, set_cpu_extensions) to depth {}, and a {}-action sub-alphabet to depth {}; every transition executes the real operation on the reused Resizer and on Resizer::new() with the same back-end and compares result value and destination bytes; states are deduplicated on the Debug rendering of the Resizer (back-end + full contents of the three scratch buffers) and the depth", full.len(), d_full, sub.len(), d_sub);
+    p.rule = format!("explicit-state search over Resizer histories: full alphabet of {} actions (8 pixel types with pixel sizes 1,2,3,6,8,4,12,16 x 4 geometries incl. larger-then-smaller x {{Nearest, Convolution(Lanczos3), Interpolation(Bilinear), SuperSampling(Box,2)}}, alpha on, fractional crops, sprites with long zero runs and alpha-aware up-scales of an interior crop box (middle third, Lanczos3/CatmullRom) for all six alpha types, size ladders of the three scratch buffers, two erroring calls, reset_internal_buffers, clone, set_cpu_extensions) to depth {}, and a {}-action sub-alphabet to depth {}; every transition executes the real operation on the reused Resizer and on Resizer::new() with the same back-end and compares result value and destination bytes; states are deduplicated on the Debug rendering of the Resizer (back-end + full contents of the three scratch buffers) and the depth", full.len(), d_full, sub.len(), d_sub);
     p.bounds = json!({"actions_full": full.len(), "depth_full": d_full, "actions_sub": sub.len(), "depth_sub": d_sub});
     p.assumptions = vec!["the Debug rendering of Resizer shows every field that can influence later calls (cpu extensions, MulDiv, the three Vec<u8> buffers); capacity is added through size_of_internal_buffers()".into(), "allocator alignment of the scratch buffers is whatever the system allocator returns here; deliberately misaligned allocations are exercised in C03".into()];
     p
